@@ -356,4 +356,68 @@ def build():
         note="any node that is not a constant, a binary or a unary operation raises; operators come only from the whitelist table",
     )
     p.add(ev_)
+
+    # ---- _utils: the task's exception travels back unchanged (type and args) through the traceback-capturing wrapper
+    def ewt(interp, args, kwargs):
+        return Opaque("ewt", None, exc=args[0], isinstance=("_ExceptionWithTraceback",))
+
+    def func_call(interp, fv, args, kwargs):
+        interp.ctx.events.append(("func-called", PyDict(kwargs)))
+        if interp.ctx.choose(2, "func-raises") == 1:
+            e = SExc(BUILTIN_EXC["KeyError"], ())
+            interp.ctx.ghost["RAISED"] = e
+            raise PyRaise(e)
+        return Res.fresh(interp.ctx, "fres")
+
+    p.models["wrappedfunc.__call__"] = func_call
+    p.spec_funcs["raised"] = lambda interp: interp.ctx.ghost.get("RAISED")
+    p.add(Contract(
+        UT, "_TracebackCapturingWrapper.__call__", props=["C04", "C01"],
+        globals={"_ExceptionWithTraceback": lambda interp: _Fn(ewt)},
+        params=dict(self=ObjOf("_TracebackCapturingWrapper", func=OpaqueOf("wrappedfunc")), kwargs=PyDict({})),
+        ensures={"never_raises_in_the_worker": "True",
+                 "error_is_returned_wrapped": "implies(raised() is not None, result.exc is raised())"},
+        ensures_body={"called_exactly_once": "n_events('func-called') == 1"},
+    ))
+
+    def reduce_model(interp, recv, args, kwargs):
+        # _ExceptionWithTraceback.__reduce__ (loky, external): rebuilds an exception of the same type and args
+        return (_Fn(lambda i, a, k: recv.attrs["exc"]), ())
+
+    p.models["ewt.__reduce__"] = reduce_model
+    p.assume_note("loky's _ExceptionWithTraceback.__reduce__ rebuilds an exception with the same type and args (external)")
+
+    def out_kind(interp):
+        k = interp.ctx.choose(3, "out-kind")
+        if k == 0:
+            return Res.fresh(interp.ctx, "plain")
+        e = SExc(BUILTIN_EXC["KeyError"], ())
+        interp.ctx.ghost["ORIG"] = e
+        if k == 1:
+            return Opaque("ewt", None, exc=e, isinstance=("_ExceptionWithTraceback",))
+        return e
+
+    p.spec_funcs["orig"] = lambda interp: interp.ctx.ghost.get("ORIG")
+    p.add(Contract(
+        UT, "_retrieve_traceback_capturing_wrapped_call", props=["C04", "C01"],
+        globals={"_ExceptionWithTraceback": ClassRef("_ExceptionWithTraceback")},
+        params=dict(out=out_kind),
+        ensures={"plain_results_pass_through": "same(result, out) and orig() is None"},
+        exsures={"KeyError": {"the_tasks_exception_is_re_raised": "exc is orig()"}},
+    ))
+
+    # ---- backends: abort_everything restarts only when asked to stay ready
+    PB = "joblib/_parallel_backends.py"
+    p.models["pool.close"] = lambda i, r, a, k: i.ctx.events.append(("pool.close",))
+    p.models["pool.terminate"] = lambda i, r, a, k: i.ctx.events.append(("pool.terminate",))
+    p.models["ThreadingBackend.configure"] = lambda i, r, a, k: i.ctx.events.append(("configure", k.get("n_jobs")))
+    p.add(Contract(
+        PB, "PoolManagerMixin.abort_everything", props=["C04"],
+        inline={"terminate"},
+        params=dict(self=ObjOf("ThreadingBackend", _pool=Opt(OpaqueOf("pool")), parallel=OpaqueOf("par", n_jobs=INT, _backend_kwargs=PyDict({}))), ensure_ready=OneOf(True, False)),
+        ensures={"pool_gone": "self._pool is None"},
+        ensures_body={"reconfigured_iff_ensure_ready": "n_events('configure') == (1 if ensure_ready else 0)",
+                      "same_n_jobs": "implies(ensure_ready, ev_named('configure')[0][1] is self.parallel.n_jobs)",
+                      "old_pool_terminated": "implies(old(self._pool) is not None, n_events('pool.terminate') == 1)"},
+    ))
     return p
